@@ -89,7 +89,7 @@ def gen(rng: random.Random, tier: str, idx: int) -> dict:
         return {"mode": mode, "size": size, "prog": prog, "raw": rng.random() < 0.4}
     # faults
     op = rng.choice(["read", "write", "exists", "list", "delete", "size", "mtime", "open_seekable_read", "read_json",
-                     "read_missing", "size_missing", "mtime_missing", "open_missing", "etag_missing", "exists_missing",
+                     "read_missing", "size_missing", "mtime_missing", "open_missing", "etag_missing", "exists_missing", "open_read", "open_read_chunks",
                      "seekable_missing"])
     exc, burst = rng.choice([("InternalError", 1), ("InternalError", 3), ("InternalError", 5), ("SlowDown", 5),
                              ("InternalError", 6), ("InternalError", 9), ("EndpointConnectionError", 4),
@@ -262,6 +262,9 @@ def execute(plan: dict, scratch: str, replay: Optional[dict] = None) -> dict:
                 s3.write_file(f"data/k{kx}", b"x" * kx)
             s3.write_json("metadata/j", {"k": 1})
             w.store.page_size = plan.get("page_size", 1000)
+            # response bodies are fault points too (reset / timeout mid-download) - for transient faults only: a permanent
+            # S3 error arrives as an error document, never in the middle of a body
+            w.store.stream_faults = plan["exc"] not in ("AccessDenied", "NoSuchBucket")
             op = plan["op"]
             expect = _fault_op(s3, op)          # fault-free answer
             t0 = sim.now
@@ -300,11 +303,17 @@ def execute(plan: dict, scratch: str, replay: Optional[dict] = None) -> dict:
                 else:
                     sim.probe("transient_masked")
                     if fired and sim.now - t0 < 0.1 * fired * 0.5:
-                        bad("B.no_backoff", f"{op}: {fired} retries in {sim.now - t0:.3f}s of virtual time", op)
+                        sim.probe("retried_without_backoff")      # (pacing of the retries is not part of the statement)
             else:
-                if got[0] != "exc" and fired >= 6:
-                    bad("B.budget_ignored", f"{op}: {fired} failures absorbed, result {_short(got)}", op)
-                elif got[0] == "exc":
+                # beyond the budget the statement promises nothing: surfacing the error is expected, masking even more
+                # failures (e.g. a resumed stream that retries on its own) is not a violation - but a wrong answer is
+                if got[0] != "exc":
+                    if got != expect:
+                        bad("B.transient_not_masked", f"{op}: {fired} failures, then a DIFFERENT result: {_short(got)} instead "
+                                                      f"of {_short(expect)}", op)
+                    else:
+                        sim.probe("masked_beyond_budget")
+                else:
                     sim.probe("budget_exhausted")
     sim.spawn(sim.proc("p0"), "h", body)
     ph.run()
@@ -346,6 +355,18 @@ def _fault_op(s3, op):
         if op == "open_missing":
             with s3.open_file("data/absent") as f:
                 return ("bytes", f.read())
+        if op == "open_read":
+            with s3.open_file("data/obj") as f:
+                return ("bytes", f.read())
+        if op == "open_read_chunks":
+            out = b""
+            with s3.open_file("data/obj") as f:
+                while True:
+                    c = f.read(97)
+                    if not c:
+                        break
+                    out += c
+            return ("bytes", out)
         if op == "etag_missing":
             return ("bytes", s3.read_file_with_etag("data/absent")[0])
         if op == "exists_missing":
